@@ -28,7 +28,7 @@ def build(tier, seed):
 
     return dict(cases=cases, evalfn=evalfn, level="exploration", min_nontrivial=30, extra=extra,
                 rule="scenes of 2..12 connections (soak: 60..200) x endpoint pattern {random, same client host/different ports, same client port to different servers, "
-                     "same ports on different hosts, IPv4/IPv6 twins} x TLS and QUIC mixed (QUIC with zero-length and 1-byte CIDs) x merge {round-robin, bursty, nested, "
+                     "same ports on different hosts, IPv4/IPv6 twins} x TLS and QUIC mixed (QUIC with zero-length and 1-byte CIDs; TLS <= 1.2 sessions resumed by later connections of the scene) x merge {round-robin, bursty, nested, "
                      "random} x noise flows (HTTP on 443, TLS on an unselected port, non-QUIC UDP) x shuffled key log. Class = (n, pattern, merge, mix, noise); distinct "
                      "merge orders are counted by hashing the connection-index sequence; non-trivial = at least two connections exported data and were compared",
                 assumptions=["timestamps are pairwise distinct per capture (the property's own proviso for QUIC datagrams)"])
@@ -46,7 +46,9 @@ def eval_case(case, rng, thorough):
         if quic:
             flows.append(gen.random_quic_flow(rng, i, ep=ep, napp=rng.choice([2, 4, 8]) if not soak else 3))
         else:
-            flows.append(gen.random_tls_flow(rng, i, ep=ep, nmax=6 if soak else 10))
+            prev = [f for f in flows if f.kind == "tls" and f.conn.spec.version <= 0x0303 and f.conn.master is not None]
+            resume = rng.choice(prev) if prev and rng.random() < 0.35 else None       # session resumption: same master secret, fresh randoms
+            flows.append(gen.random_tls_flow(rng, i, ep=ep, nmax=6 if soak else 10, resume_of=resume, duplex=rng.random() < 0.3))
     real = len(flows)
     noise = []
     if rng.random() < 0.5 and not soak:
